@@ -1,0 +1,36 @@
+// Copyright 2026 The Go Authors. All rights reserved.
+// Use of this source code is governed by a BSD-style
+// license that can be found in the LICENSE file.
+
+//go:build verif && (!goexperiment.jsonv2 || !go1.25)
+
+package json
+
+import "sync/atomic"
+
+// Instrumentation points (only under the "verif" build tag).
+const (
+	VerifLookupArshalerMiss = iota // lookupArshaler builds a new arshaler for a type
+	VerifFuncsLookupMiss           // typedArshalers.lookup builds the function chain for a type
+	VerifMarshalValueAny           // specialised marshaler for any
+	VerifUnmarshalValueAny         // specialised unmarshaler for any
+	VerifInterfaceReflect          // interface unmarshal through the generic reflection route
+	VerifStructFieldsInit          // first use of a struct type
+	verifNumPoints
+)
+
+// VerifPointCount counts how often each point was passed.
+var VerifPointCount [verifNumPoints]atomic.Int64
+
+// VerifYield, if set, is called at first-use points (cache misses, lazy initialisers)
+// so that a monitor can yield the processor and widen first-use races.
+var VerifYield atomic.Pointer[func(p int)]
+
+func verifPoint(p int) {
+	VerifPointCount[p].Add(1)
+	if p == VerifLookupArshalerMiss || p == VerifFuncsLookupMiss || p == VerifStructFieldsInit {
+		if f := VerifYield.Load(); f != nil {
+			(*f)(p)
+		}
+	}
+}
